@@ -141,12 +141,15 @@ class Presentation:
     units (heavy rain inside a gap tempts a storm to run across it)."""
 
     def __init__(self, dt=1800, e0=None, s_real=4.0, j_real=8.0, S=4, J=4, gap=1, gap_rain=5,
-                 base=96.0, zone="UTC", gap_jump=9, sub=1):
+                 base=96.0, zone="UTC", gap_jump=9, sub=1, stagger=0):
         self.dt, self.S, self.J = dt, S, J
         # sub > 1: the level file is sampled `sub` times per grid step; readings between grid instants lie on
         # the chord, and the readings next to a missing grid instant are present (the hole is then no longer
         # than a grid step, yet it is a gap in the level record: Load.tla, Q < P)
         self.sub = sub
+        # stagger > 0: the logger reads the level `stagger` seconds after every rainfall instant (same step):
+        # every grid value is then interpolated between two readings
+        self.stagger = stagger
         self.e0 = epoch_of(2013, 3, 1) if e0 is None else e0
         self.s_real, self.j_real = s_real, j_real
         self.gap, self.gap_rain, self.base, self.zone, self.gap_jump = gap, gap_rain, base, zone, gap_jump
@@ -193,6 +196,8 @@ class Presentation:
             lev = lev + self.gap_jump * self.inc_scale   # level moves a lot during the gap
         if self.sub > 1:
             level_rows = self._subsample(level_rows)
+        if self.stagger:
+            level_rows = [(tt + self.stagger, z) for tt, z in level_rows]
         rain_rows = [(t(i), rain[i]) for i in range(total)]
         # a little margin of rain / ET rows outside the level span
         rain_rows = [(t(-1), 0.0)] + rain_rows + [(t(total), 0.0)]
